@@ -33,16 +33,20 @@ func Range(start, end, step int) SortedInts {
 		return []int{}
 	}
 
+	//n is the number of elements. The elements are calculated from it so that nothing overflows near the limits of int.
+	var n int
 	if end < start {
 		//The elements are start, start+step, ..., so count upwards from the smallest of them.
 		step = -step
-		n := (start - end + step - 1) / step
-		start, end = start-(n-1)*step, start+1
+		n = int(uint(start-end-1)/uint(step)) + 1
+		start -= (n - 1) * step
+	} else {
+		n = int(uint(end-start-1)/uint(step)) + 1
 	}
 
-	tmp := make([]int, 0, (end-start+step-1)/step)
-	for i := start; i < end; i += step {
-		tmp = append(tmp, i)
+	tmp := make([]int, n)
+	for i := range tmp {
+		tmp[i] = start + i*step
 	}
 	return tmp
 }
